@@ -180,7 +180,7 @@ func TestVerifC16Lengths(t *testing.T) {
 	r := vkit.Start(t, "C16", "every-even-length", 200*time.Second, 900*time.Second)
 	defer r.Finish()
 	hi := uint(vkit.Pick(166, 230))
-	r.Rule = fmt.Sprintf("GenerateKeyPair for EVERY even Ln in [128,%d] (prime sizes of every residue modulo 8) with 2 bases, default randomness, 4 generations each (a length class whose keys are malformed with probability p per generation escapes with (1-p)^12); non-trivial = distinct (Ln, repetition); oracle: returns within the liveness horizon (no evaluation completed for 150 s => non-termination), full well-formedness predicate, no goroutine left running", hi)
+	r.Rule = fmt.Sprintf("GenerateKeyPair for EVERY even Ln in [128,%d] (prime sizes of every residue modulo 8) with 2 bases, default randomness, 4 generations each, and the odd lengths 129 and 143 (error or well-formed key, never an endless search) (a length class whose keys are malformed with probability p per generation escapes with (1-p)^12); non-trivial = distinct (Ln, repetition); oracle: returns within the liveness horizon (no evaluation completed for 150 s => non-termination), full well-formedness predicate, no goroutine left running", hi)
 	cur := ""
 	defer r.Watch(150*time.Second, func() string { return cur })()
 	for ln := uint(128); ln <= hi; ln += 2 {
@@ -208,6 +208,28 @@ func TestVerifC16Lengths(t *testing.T) {
 			if n := c16WaitGoroutines(baseline); n > baseline {
 				r.Violate("C16|worker-left-running|free-running", fmt.Sprintf("Ln=%d: %d goroutines before, %d after", ln, baseline, n), ln)
 			}
+		}
+	}
+	// odd lengths: two primes of half the length cannot give such a modulus; generation must say so (or
+	// deliver a well-formed key of exactly that length) - not search forever
+	for _, ln := range []uint{129, 143} {
+		if _, mine := r.Next(); !mine {
+			continue
+		}
+		cur = fmt.Sprintf("GenerateKeyPair at odd Ln=%d", ln)
+		param := c16Params(ln)
+		baseline := runtime.NumGoroutine()
+		sk, pk, err := GenerateKeyPair(param, 2, 1, time.Unix(1900000000, 0))
+		r.Eval()
+		r.Nontrivial(fmt.Sprintf("len|%d", ln))
+		r.Outcome(fmt.Sprintf("odd Ln:generated=%v", err == nil))
+		if err == nil {
+			if bad := c16KeyPredicate(sk, pk, param, 2); len(bad) > 0 {
+				r.Violate("C16|malformed-key|"+bad[0], fmt.Sprintf("Ln=%d: %v", ln, bad), ln)
+			}
+		}
+		if n := c16WaitGoroutines(baseline); n > baseline {
+			r.Violate("C16|worker-left-running|free-running", fmt.Sprintf("Ln=%d: %d goroutines before, %d after", ln, baseline, n), ln)
 		}
 	}
 }
